@@ -1,3 +1,4 @@
 import HoloModel.Scalar
 import HoloModel.IO
 import HoloModel.Rigid
+import HoloModel.Fourier
